@@ -1069,7 +1069,10 @@ func (sb *seqbag) LongestORF(reverse bool) (orf Sequence, err error) {
 
 	// log.Print("Longest ORF found in sequence ", bestseq.Name())
 	// log.Print(string(bestseq.SequenceChar()[beststart:bestend]))
-	orf = NewSequence(name, bestseq.SequenceChar()[beststart:bestend], "")
+	// The ORF owns its residues (it does not share them with the input sequence)
+	orfseq := make([]uint8, bestend-beststart)
+	copy(orfseq, bestseq.SequenceChar()[beststart:bestend])
+	orf = NewSequence(name, orfseq, "")
 	return
 }
 
